@@ -14,6 +14,10 @@ def run(chk, repo, tier):
         sr.schedule_rules(chk, repo, q, rid_pal='C09.R1')
         sr.emit(chk, repo, q, {'canonical': 'C09.R2', 'loop-invariant': 'C09.R2', 'loop-entry': 'C09.R2'})
     chk.floor('C09.R1', 4, 4)
+    chk.rule('C09.R3', 'the norm reported by a call is the factor of its initial right-orthonormalisation of the input, with '
+                       'nothing changing psi before it (the reversibility statement multiplies the result by this number)')
+    from .C08 import return_rule
+    return_rule(chk, repo, 'C09.R3', 'evolution.integrate_local_singlesite')
     from . import support
     support.krylov_rules(chk, repo, 'C09.K')
     chk.undecided += ['exactness on a complete manifold', 'the numerical size of the reversibility defect']
